@@ -1323,13 +1323,14 @@ const rule = "conc: G in 2..8 goroutines x 2..15 ops (44 kinds: authorize/login/
 	"gets when run alone afterwards (twin run: status, redirect target, every delivered parameter, body); CodeExchange, Userinfo, RefreshTokens, EndSession, RevokeToken, VerifyTokens, " +
 	"ClientCredentials, device calls, ONE AuthURLHandler and ONE CodeExchangeHandler(UserinfoCallback), rs.Introspect (secret and JWT profile), ExchangeToken, remote key set, JWT-profile token source, " +
 	"Discover through a redirect on ONE RP / RS / exchanger / key set / token source over ONE caller-supplied http.Client, in-process transport) in the -race binary; " +
-	"free or lock-step schedule, warm or cold (nothing touches the provider before the goroutines start), independent or identical programs, issuer static / from Host / from Forwarded-or-Host; " +
+	"free or lock-step schedule, warm or cold (nothing touches the provider before the goroutines start), independent or identical programs, issuer static / from Host / from Forwarded-or-Host (then discovery is asked under several host names / Forwarded hosts at once); " +
 	"order: 2..12 steps of constructing providers (8 endpoint options, bulk option, both routers, issuer strategy StaticIssuer / IssuerFromHost / IssuerFromForwardedOrHost without and with " +
 	"WithIssuerFromCustomHeaders(1..2 names of 6 spellings), wrapper constructors, default / caller-supplied / no CORS options), issuer functions on their own (the same strategies, path, allowInsecure), " +
 	"RPs (OIDC / OAuth), resource servers, token exchangers with the package default or a shared caller-supplied http.Client, and calls on them, with a deep snapshot (package-level defaults, supplied clients, " +
 	"op.Config, cors.Options, header lists) and a behaviour re-probe of every live instance after every step: discovery document, routed paths, issuer for 9 requests carrying Host / Forwarded / " +
 	"X-Forwarded-Host / other headers (two reference issuer functions with default options are built before anything else), CORS answers, key set, answers to fixed bad requests, what RPs / RSs / exchangers " +
-	"tell about themselves, redirect following; an instance built later behaves like the reference with the same options (or as the options are documented); " +
+	"tell about themselves, redirect following; an instance built later behaves like the reference / provider 0 with the same options (or as the options are documented), and every case closes by " +
+	"building the default issuer functions and a default provider once more; " +
 	"non-trivial: conc = >=2 goroutines and >=4 executed ops, distinct = (router, alg, token type, schedule, cold, G, set of op-kind pairs that ran in different goroutines); " +
 	"order = >=2 instances or >=1 call after a constructor, distinct = step sequence"
 
